@@ -378,6 +378,11 @@ func (g *typeGen) structType(t *rapid.T, depth int) TypeDesc {
 			}
 			f.Type = pt
 			f.Tag = `struct:"` + rapid.SampledFrom([]string{",omitempty", "o,omitempty", ""}).Draw(t, "optptrtag") + `"`
+		} else if g.cfg.Tags && !g.cfg.NoIface && rapid.IntRange(0, 11).Draw(t, "omitifc") == 0 {
+			// an interface that is dropped when "empty": the emptiness rule is
+			// chosen by the dynamic type of every single value
+			f.Type = TypeDesc{Kind: "iface"}
+			f.Tag = `struct:"` + rapid.SampledFrom([]string{",omitempty", "oi,omitempty"}).Draw(t, "omitifctag") + `"`
 		} else if g.cfg.Tags && !g.cfg.NoInline && depth < g.cfg.MaxDepth-1 && rapid.IntRange(0, 11).Draw(t, "nestinl") == 0 {
 			// inline inside inline, the inlined struct (usually) not at offset 0:
 			// struct{...; F struct{MPi T; I struct{NiX0 T; ...} `inline`; MQi T} `inline`}
@@ -462,7 +467,7 @@ func inlineable(td *TypeDesc, onlyStruct bool) bool {
 	case "ptr":
 		return !onlyStruct && inlineable(td.Elem, onlyStruct) && td.Elem.Kind != "iface"
 	case "pool":
-		return !onlyStruct && (td.Pool == "FolderObj" || td.Pool == "FolderPtr" || td.Pool == "NMapInt" || td.Pool == "NMapAny" || td.Pool == "WithEmb" || td.Pool == "FCounts")
+		return !onlyStruct && (td.Pool == "FolderObj" || td.Pool == "FolderPtr" || td.Pool == "NMapInt" || td.Pool == "NMapAny" || td.Pool == "WithEmb" || td.Pool == "FCounts" || td.Pool == "FDeleg")
 	}
 	return false
 }
